@@ -1273,7 +1273,12 @@ class C13:
         # the whole configuration must survive the checkpoint: preemption bounds, explicit exploration
         bounded = [gen.with_cfg(l, pb=b) for b in (1, 2) for l in gen.fam_bound_core("quick") if l.startswith(("pbA3", "pbM"))][:16]
         bounded += [gen.with_cfg(l, ee=1) for l in gen.fam_ctl_core("quick") if l.startswith("ctE")][:4]
-        progs = base + rnd + bounded
+        # state that an iteration could inherit from the previous one (SC-fence clock, objects): a resumed run
+        # starts its first iteration from nothing, so any such leak shows as a difference
+        state = [gen.prog_line("c13F0", ["A0", "A0"], [["sp 1", "ld 1 rlx", "fn sc", "ld 0 rlx", "jn 1", "fn sc"], ["st 0 1 rlx", "st 1 1 rlx"]]),
+                 gen.prog_line("c13F1", ["A0", "A0"], [["sp 1", "st 0 1 rlx", "fn sc", "ld 1 rlx", "jn 1", "fn sc"], ["st 1 1 rlx", "fn sc", "ld 0 rlx"]])]
+        state += [l for l in gen.fam_litmus_core("quick") if "fn sc" in l][::9][:6]
+        progs = base + rnd + bounded + state
         # 1. determinism: the same family twice in one process, once more in another process
         fam = FamilyRun(ctx, progs + progs, "c13a", shards=1)   # one process: the second run of each program follows the first
         fam2 = FamilyRun(ctx, progs, "c13b")
@@ -1419,6 +1424,10 @@ class C16:
         pool += [l for l in gen.fam_race_core("quick") if l.startswith(("rcFsc", "rcMP"))][::6]
         pool += [l for l in gen.fam_litmus_core("quick") if "fn sc" in l][::5]
         pool += gen.fam_tls_core("quick")[::40]
+        # exploration control state (exploring / critical / skipping) must not survive an iteration either
+        pool += [l for l in gen.fam_ctl_core("quick") if l.startswith(("ctM", "ctK", "ctE"))][::5]
+        pool += [gen.prog_line("c16K0", ["A0"], [["sp 1", "ex", "ld 0 sc", "sk", "st 0 1 sc", "jn 1"], ["st 0 2 sc", "ld 0 sc"]], ee=1),
+                 gen.prog_line("c16K1", ["A0"], [["sp 1", "ld 0 sc", "sk", "sx", "st 0 1 sc", "ex", "ld 0 sc", "jn 1"], ["st 0 2 sc", "ld 0 sc"]])]
         pool += gen.family_random(ctx.seed, 30 if ctx.tier == "quick" else 300, list("AMRCNHUKF"), nthreads=(2, 3), maxops=3, prefix="c16r")
         seq = []
         for i in range(0, len(pool) - 1, 2):
